@@ -13,7 +13,7 @@ use std::sync::atomic::{AtomicU64, Ordering};
 pub const TOKENS: [&str; 19] = [
     "a", "b", ".", "-", "+", "(", "ż", "\\*", "?", "*", "**", "/", "[ab]", "[!a]", "{a,b*}", "@(a|b)", "?(a|b)", "+(a|b)", "*(a|b)",
 ];
-pub const COMPONENTS: [&str; 7] = ["a", "b", "ab", "a.b", "-", "ż", "A"];
+pub const COMPONENTS: [&str; 8] = ["a", "b", "ab", "a.b", "-", "ż", "A", "a\nb"];
 
 #[derive(Clone, Debug, Serialize, Deserialize)]
 pub struct MatchCase {
@@ -267,7 +267,7 @@ fn glob_strategy(max_tokens: usize) -> impl Strategy<Value = String> {
 }
 
 /// Components of the pruning cases: those of the enumeration plus upper-case non-ASCII names.
-const PRUNE_COMPONENTS: [&str; 10] = ["a", "b", "ab", "a.b", "-", "ż", "A", "Ż", "ŻÓŁW", "Ab"];
+const PRUNE_COMPONENTS: [&str; 11] = ["a", "b", "ab", "a.b", "-", "ż", "A", "Ż", "ŻÓŁW", "Ab", "a\nb"];
 
 fn rel_path_strategy() -> impl Strategy<Value = String> {
     proptest::collection::vec((0u16..u16::MAX).prop_map(|i| PRUNE_COMPONENTS[pick(i, PRUNE_COMPONENTS.len())]), 1..=4).prop_map(|v| v.join("/"))
@@ -438,7 +438,7 @@ pub fn check(tier: Tier) -> i32 {
 
     ctx.finish(
         "exploration",
-        "clause 1: bounded-exhaustive - every glob of <=3 (quick) / <=4 (thorough) tokens over the 19-token alphabet (literals a b . - + ( ż \\*, ?, *, **, /, [ab], [!a], {a,b*}, @(a|b), ?(a|b), +(a|b), *(a|b)) against all 2800 paths of <=4 components over {a,b,ab,a.b,-,ż,A}, case-sensitive and ignore-case, fclones' Pattern::glob (through Pattern::matches and Pattern::matches_path, the entry points of the scan options and of the dedupe keep/drop options) vs the harness' reference matcher written from README 'Path Globbing'; random globs of up to 7 tokens. clause 2: random PathSelector configurations (include/exclude globs derived from the path with wildcard substitutions, absolute or relative to base directories whose names contain . - + ( ) $ ż or glob syntax such as [1], {a,b}, +(x), a*, q?, @(a|b)) - (a) matches_full_path must agree with the reference matcher, a relative pattern being anchored at the base directory taken literally; (b) whenever the selector selects a full path every proper ancestor directory must pass matches_dir. Non-trivial (1) = glob has a wildcard token and a metacharacter/non-ASCII literal; (2) = selected path with >=3 ancestors. Distinct by construction for the enumeration, by digest for random cases.",
+        "clause 1: bounded-exhaustive - every glob of <=3 (quick) / <=4 (thorough) tokens over the 19-token alphabet (literals a b . - + ( ż \\*, ?, *, **, /, [ab], [!a], {a,b*}, @(a|b), ?(a|b), +(a|b), *(a|b)) against all 4680 paths of <=4 components over {a,b,ab,a.b,-,ż,A,a<LF>b}, case-sensitive and ignore-case, fclones' Pattern::glob (through Pattern::matches and Pattern::matches_path, the entry points of the scan options and of the dedupe keep/drop options) vs the harness' reference matcher written from README 'Path Globbing'; random globs of up to 7 tokens. clause 2: random PathSelector configurations (include/exclude globs derived from the path with wildcard substitutions, absolute or relative to base directories whose names contain . - + ( ) $ ż or glob syntax such as [1], {a,b}, +(x), a*, q?, @(a|b)) - (a) matches_full_path must agree with the reference matcher, a relative pattern being anchored at the base directory taken literally; (b) whenever the selector selects a full path every proper ancestor directory must pass matches_dir. Non-trivial (1) = glob has a wildcard token and a metacharacter/non-ASCII literal; (2) = selected path with >=3 ancestors. Distinct by construction for the enumeration, by digest for random cases.",
         &["!( ) is outside the statement and not generated", "globs the reference grammar cannot parse (e.g. an unbalanced '?(' produced by token concatenation) are skipped and counted"],
     )
 }
